@@ -28,6 +28,11 @@ func (t *Target) AccessDeniedHTTP(r *http.Request) bool {
 		return false
 	}
 
+	// a zone-scoped IPv6 peer ([fe80::1%eth0]:1234) is matched by its address
+	if i := strings.IndexByte(host, '%'); i >= 0 {
+		host = host[:i]
+	}
+
 	ip := net.ParseIP(host)
 	if ip == nil {
 		log.Printf("[WARN] failed to parse remote address %s", host)
@@ -147,6 +152,8 @@ func (t *Target) denyByIP(ip net.IP) bool {
 // ProcessAccessRules processes access rules from options specified on the target route
 func (t *Target) ProcessAccessRules() error {
 	if t.Opts["allow"] != "" && t.Opts["deny"] != "" {
+		// fail closed: an empty allow list admits nobody
+		t.accessRules = map[string][]interface{}{ipAllowTag: {}}
 		return errors.New("specifying allow and deny on the same route is not supported")
 	}
 
@@ -171,10 +178,26 @@ func (t *Target) parseAccessRule(allowDeny string) error {
 		t.accessRules = make(map[string][]interface{})
 	}
 
+	// an allow rule restricts access even if none of its items can be
+	// parsed: make sure the (possibly empty) allow list exists
+	if allowDeny == "allow" && t.accessRules[ipAllowTag] == nil {
+		t.accessRules[ipAllowTag] = []interface{}{}
+	}
+
+	// an item which cannot be parsed must not hide the other items of the
+	// rule: keep going and report the first error at the end
+	var firstErr error
+	fail := func(err error) {
+		if firstErr == nil {
+			firstErr = err
+		}
+	}
+
 	// loop over rule elements
 	for _, c := range strings.Split(t.Opts[allowDeny], ",") {
 		if temps = strings.SplitN(c, ":", 2); len(temps) != 2 {
-			return fmt.Errorf("invalid access item, expected <type>:<data>, got %s", temps)
+			fail(fmt.Errorf("invalid access item, expected <type>:<data>, got %s", temps))
+			continue
 		}
 
 		// form access type tag
@@ -185,7 +208,8 @@ func (t *Target) parseAccessRule(allowDeny string) error {
 		case ipAllowTag, ipDenyTag:
 			if value = strings.TrimSpace(temps[1]); !strings.Contains(value, "/") {
 				if ip = net.ParseIP(value); ip == nil {
-					return fmt.Errorf("failed to parse IP %s", value)
+					fail(fmt.Errorf("failed to parse IP %s", value))
+					continue
 				}
 				if ip.To4() != nil {
 					value = ip.String() + "/32"
@@ -195,15 +219,16 @@ func (t *Target) parseAccessRule(allowDeny string) error {
 			}
 			_, net, err := net.ParseCIDR(value)
 			if err != nil {
-				return fmt.Errorf("failed to parse CIDR %s with error: %s",
-					c, err.Error())
+				fail(fmt.Errorf("failed to parse CIDR %s with error: %s",
+					c, err.Error()))
+				continue
 			}
 			// add element to rule map
 			t.accessRules[accessTag] = append(t.accessRules[accessTag], net)
 		default:
-			return fmt.Errorf("unknown access item type: %s", temps[0])
+			fail(fmt.Errorf("unknown access item type: %s", temps[0]))
 		}
 	}
 
-	return nil
+	return firstErr
 }
